@@ -182,6 +182,10 @@ Definition no_collision (realms:list N) (class method:N) (txid:bytes) (attrs:lis
   no_collision_from realms (msg_type_of method class) txid [] attrs.
 
 (* ------------------------------------------------------------------------------------------ decoding side *)
+(* `App ty _` stands for an attribute type without special treatment: not one of the three integrity / fingerprint types
+   (AgentMech.attr_wf as a boolean) *)
+Definition plain_apps (l:list attr) : bool :=
+  forallb (fun a => match a with App ty _ => negb (ty =? 8) && negb (ty =? 28) && negb (ty =? 32808) | _ => true end) l.
 (* every integrity attribute of the packet was produced with key k *)
 Definition keys_are (k:keyd) (l:list attr) : bool :=
   forallb (fun a => match a with AMI k' | ASHA k' => keyd_eqb k' k | _ => true end) l.
